@@ -49,6 +49,11 @@ impl Stats {
     }
 }
 
+thread_local! {
+    /// (universe, insertion-order sweep?) of the sweep currently running on this thread
+    static SWEEP_CTX: std::cell::RefCell<(Vec<u32>, bool)> = const { std::cell::RefCell::new((vec![], false)) };
+}
+
 #[derive(Clone, Debug)]
 pub struct Fail {
     pub form: String,
@@ -227,6 +232,8 @@ pub trait JoinKind: Kind {
     /// parallel forms through the split-tree driver; leaf callback gets (path, idx, value) and returns value to write
     fn pair_par_mut(st: &mut WriteStorage<Self>, b: &BitSet, decide: &mut dyn FnMut(&[u8]) -> bool, leaf: &mut dyn FnMut(&[u8], u32, u32) -> Option<u32>) -> bool;
     fn pair_par_restrict_mut(st: &mut WriteStorage<Self>, b: &BitSet, decide: &mut dyn FnMut(&[u8]) -> bool, leaf: &mut dyn FnMut(&[u8], u32, u32) -> Option<u32>) -> bool;
+    /// the public parallel iterator on a real rayon pool: `(&mut s, &b).par_join()` writing `idx -> mark(idx)`
+    fn pair_par_mut_real(st: &mut WriteStorage<Self>, b: &BitSet, pool: &rayon::ThreadPool, restricted: bool) -> Option<Vec<Row>>;
 }
 
 macro_rules! jk_joinmut {
@@ -279,6 +286,35 @@ macro_rules! jk_joinmut {
 
 macro_rules! jk_parmut {
     (true, $t:ty) => {
+        fn pair_par_mut_real(st: &mut WriteStorage<$t>, b: &BitSet, pool: &rayon::ThreadPool, restricted: bool) -> Option<Vec<Row>> {
+            use rayon::iter::ParallelIterator;
+            let mut rows: Vec<Row> = if restricted {
+                let mut r = st.restrict_mut();
+                pool.install(|| {
+                    (&mut r, b)
+                        .par_join()
+                        .map(|(mut item, i)| {
+                            let v = item.get().val();
+                            item.get_mut().access_mut().set_val(val_of(i) + 1);
+                            (i, Obs::Val(v))
+                        })
+                        .collect()
+                })
+            } else {
+                pool.install(|| {
+                    (&mut *st, b)
+                        .par_join()
+                        .map(|(mut c, i)| {
+                            let v = c.val();
+                            c.access_mut().set_val(val_of(i) + 1);
+                            (i, Obs::Val(v))
+                        })
+                        .collect()
+                })
+            };
+            rows.sort_by_key(|r| r.0);
+            Some(rows)
+        }
         fn pair_par_mut(st: &mut WriteStorage<$t>, b: &BitSet, decide: &mut dyn FnMut(&[u8]) -> bool, leaf: &mut dyn FnMut(&[u8], u32, u32) -> Option<u32>) -> bool {
             (&mut *st, b).par_join().verif_drive(decide, &mut |path, (mut c, i)| {
                 let v = c.observe();
@@ -300,6 +336,9 @@ macro_rules! jk_parmut {
         }
     };
     (false, $t:ty) => {
+        fn pair_par_mut_real(_: &mut WriteStorage<$t>, _: &BitSet, _: &rayon::ThreadPool, _: bool) -> Option<Vec<Row>> {
+            None
+        }
         fn pair_par_mut(_: &mut WriteStorage<$t>, _: &BitSet, _: &mut dyn FnMut(&[u8]) -> bool, _: &mut dyn FnMut(&[u8], u32, u32) -> Option<u32>) -> bool {
             false
         }
@@ -343,6 +382,8 @@ pub enum Mode {
     C06,
     C07,
     C13,
+    /// the public `par_join()` iterator on real rayon pools of several sizes
+    C07Real,
 }
 
 pub struct SweepCfg {
@@ -355,6 +396,7 @@ pub struct SweepCfg {
 
 /// All join forms over storage kind `T` paired with a plain bit set.
 pub fn sweep_storage<T: JoinKind>(cfg: &SweepCfg) -> (Stats, Vec<Fail>) {
+    SWEEP_CTX.with(|c| *c.borrow_mut() = (cfg.u.clone(), false));
     let name = T::NAME;
     let mut stats = Stats::default();
     let mut fails: Vec<Fail> = vec![];
@@ -377,6 +419,7 @@ pub fn sweep_storage<T: JoinKind>(cfg: &SweepCfg) -> (Stats, Vec<Fail>) {
                 Mode::C06 => forms_c06::<T>(&ctx, name, &x, &b, &bv, &both, &mut stats, &mut fails),
                 Mode::C07 => forms_c07::<T>(&ctx, name, &x, &b, &bv, &both, cfg.tree_cap, &mut stats, &mut fails),
                 Mode::C13 => forms_c13::<T>(&ctx, name, &x, &b, &bv, &both, cfg.tree_cap, &mut stats, &mut fails),
+                Mode::C07Real => forms_c07_real::<T>(&ctx, name, &x, &b, &bv, &both, &mut stats, &mut fails),
             }
             if fails.len() > 20 {
                 return (stats, fails);
@@ -392,6 +435,7 @@ pub fn sweep_storage<T: JoinKind>(cfg: &SweepCfg) -> (Stats, Vec<Fail>) {
 /// Compact universe, every live index: each content subset is installed in
 /// every insertion order (dense storages permute their hidden tables).
 pub fn sweep_storage_perm<T: JoinKind>(cfg: &SweepCfg) -> (Stats, Vec<Fail>) {
+    SWEEP_CTX.with(|c| *c.borrow_mut() = (cfg.u.clone(), true));
     let name = T::NAME;
     let mut stats = Stats::default();
     let mut fails: Vec<Fail> = vec![];
@@ -433,6 +477,7 @@ pub fn sweep_storage_perm<T: JoinKind>(cfg: &SweepCfg) -> (Stats, Vec<Fail>) {
                     Mode::C06 => forms_c06::<T>(&ctx, name, &x, &b, &bv, &both, &mut stats, &mut fails),
                     Mode::C07 => forms_c07::<T>(&ctx, name, &x, &b, &bv, &both, cfg.tree_cap, &mut stats, &mut fails),
                     Mode::C13 => forms_c13::<T>(&ctx, name, &x, &b, &bv, &both, cfg.tree_cap, &mut stats, &mut fails),
+                    Mode::C07Real => forms_c07_real::<T>(&ctx, name, &x, &b, &bv, &both, &mut stats, &mut fails),
                 }
                 if fails.len() > 20 {
                     for f in fails.iter_mut() {
@@ -745,6 +790,83 @@ fn forms_c07<T: JoinKind>(ctx: &Ctx, name: &str, x: &[u32], b: &BitSet, bv: &[u3
         }
     }
     stats.max_trees_per_mask = stats.max_trees_per_mask.max(trees_here);
+}
+
+pub static POOL_SIZES: std::sync::OnceLock<Vec<usize>> = std::sync::OnceLock::new();
+
+thread_local! {
+    /// one set of pools per sweep thread (a shared single-thread pool would serialise all sweeps)
+    static POOLS: std::cell::RefCell<Option<std::rc::Rc<Vec<(usize, rayon::ThreadPool)>>>> = const { std::cell::RefCell::new(None) };
+}
+
+pub fn pools() -> std::rc::Rc<Vec<(usize, rayon::ThreadPool)>> {
+    POOLS.with(|p| {
+        let mut p = p.borrow_mut();
+        if p.is_none() {
+            let sizes = POOL_SIZES.get().cloned().unwrap_or_else(|| vec![1, 3, 8]);
+            *p = Some(std::rc::Rc::new(sizes.iter().map(|n| (*n, rayon::ThreadPoolBuilder::new().num_threads(*n).build().expect("rayon pool"))).collect()));
+        }
+        p.as_ref().unwrap().clone()
+    })
+}
+
+/// The public parallel iterator (`drive_unindexed` + rayon's bridge) on real pools: whatever the
+/// work-stealing scheduler does, the delivered items must be the sequential join's items.
+#[allow(clippy::too_many_arguments)]
+fn forms_c07_real<T: JoinKind>(ctx: &Ctx, name: &str, x: &[u32], b: &BitSet, bv: &[u32], both: &[u32], stats: &mut Stats, fails: &mut Vec<Fail>) {
+    use rayon::iter::ParallelIterator;
+    let want_val = expect_rows(both, |i| Obs::Val(zv::<T>(i)));
+    let not_x: Vec<u32> = bv.iter().copied().filter(|i| !x.contains(i)).collect();
+    let want_opt = expect_rows(bv, |i| Obs::Opt(if x.contains(&i) { Some(zv::<T>(i)) } else { None }));
+    let want_e = expect_rows(both, |i| Obs::Ent(i, ctx.live[&i].gen().id()));
+    for (n, pool) in pools().iter() {
+        {
+            let st = ctx.w.read_storage::<T>();
+            let ents = ctx.w.entities();
+            let mut got: Vec<Row> = pool.install(|| (&st, b).par_join().map(|(c, i)| (i, Obs::Val(c.val()))).collect());
+            got.sort_by_key(|r| r.0);
+            chk!(fails, name, format!("(&s,&b).par_join() on a pool of {}", n), x, bv, got, want_val.clone());
+            let mut got: Vec<Row> = pool.install(|| (b, &st).par_join().map(|(i, c)| (i, Obs::Val(c.val()))).collect());
+            got.sort_by_key(|r| r.0);
+            chk!(fails, name, format!("(&b,&s).par_join() on a pool of {}", n), x, bv, got, want_val.clone());
+            let cnt = std::sync::atomic::AtomicUsize::new(0);
+            pool.install(|| (&st, b).par_join().for_each(|_| { cnt.fetch_add(1, std::sync::atomic::Ordering::Relaxed); }));
+            chk!(fails, name, format!("(&s,&b).par_join().for_each on a pool of {}", n), x, bv, cnt.into_inner(), both.len());
+            let mut got: Vec<Row> = pool.install(|| (!&st, b).par_join().map(|((), i)| (i, Obs::Unit)).collect());
+            got.sort_by_key(|r| r.0);
+            chk!(fails, name, format!("(!&s,&b).par_join() on a pool of {}", n), x, bv, got, expect_rows(&not_x, |_| Obs::Unit));
+            let mut got: Vec<Row> = pool.install(|| (b, (&st).maybe()).par_join().map(|(i, c)| (i, Obs::Opt(c.map(|c| c.val())))).collect());
+            got.sort_by_key(|r| r.0);
+            chk!(fails, name, format!("(&b,(&s).maybe()).par_join() on a pool of {}", n), x, bv, got, want_opt.clone());
+            let mut got: Vec<Row> = pool.install(|| (&ents, &st, b).par_join().map(|(e, _c, i)| (i, Obs::Ent(e.id(), e.gen().id()))).collect());
+            got.sort_by_key(|r| r.0);
+            chk!(fails, name, format!("(&entities,&s,&b).par_join() on a pool of {}", n), x, bv, got, want_e.clone());
+            let rs = st.restrict();
+            let mut got: Vec<Row> = pool.install(|| (&rs, b).par_join().map(|(p, i)| (i, Obs::Val(p.get().val()))).collect());
+            got.sort_by_key(|r| r.0);
+            chk!(fails, name, format!("(&s.restrict(),&b).par_join() on a pool of {}", n), x, bv, got, want_val.clone());
+            stats.joins += 7;
+        }
+        if T::HAS_PAR_MUT {
+            let mut st = ctx.w.write_storage::<T>();
+            for restricted in [false, true] {
+                if let Some(got) = T::pair_par_mut_real(&mut st, b, pool, restricted) {
+                    chk!(fails, name, format!("(&mut s{},&b).par_join() on a pool of {}", if restricted { ".restrict_mut()" } else { "" }, n), x, bv, got, want_val.clone());
+                    for idx in x {
+                        let got = st.get(ctx.live[idx]).map(|c| c.val());
+                        let want = Some(if T::ZST { 0 } else if both.contains(idx) { val_of(*idx) + 1 } else { val_of(*idx) });
+                        chk!(fails, name, format!("parallel mutable join on a pool of {} then get({})", n, idx), x, bv, got, want);
+                    }
+                    for idx in both {
+                        if let Some(mut c) = st.get_mut(ctx.live[idx]) {
+                            c.access_mut().set_val(val_of(*idx));
+                        }
+                    }
+                    stats.joins += 1;
+                }
+            }
+        }
+    }
 }
 
 #[allow(clippy::too_many_arguments)]
@@ -1317,11 +1439,11 @@ pub fn storage_kinds() -> Vec<(&'static str, Sweep)> {
     vec![k!(CVec), k!(CDense), k!(CDefVec), k!(CHash), k!(CBTree), k!(CNull), k!(FVec), k!(FDense), k!(FDefVec), k!(FHash), k!(FBTree), k!(FNull), k!(DVec), k!(DDense), k!(DDefVec), k!(DHash), k!(DBTree), k!(DNull)]
 }
 
-fn fail_to_finding(f: &Fail, engine_mode: &str) -> Finding {
+fn fail_to_finding(f: &Fail, engine_mode: &str, u: &[u32], perm: bool) -> Finding {
     Finding {
         key: format!("{}|{}|x={:?}|b={:?}", f.kind, f.form, f.xmask, f.bmask),
         oracle: format!("{}: {}", f.form, f.detail),
-        replay: json!({"engine": "mc-join", "mode": engine_mode, "kind": f.kind, "form": f.form, "xmask": f.xmask, "bmask": f.bmask, "tree": f.tree, "detail": f.detail}),
+        replay: json!({"engine": "mc-join", "mode": engine_mode, "kind": f.kind, "form": f.form, "xmask": f.xmask, "bmask": f.bmask, "tree": f.tree, "detail": f.detail, "u": u, "perm": perm}),
     }
 }
 
@@ -1332,6 +1454,7 @@ pub fn main() {
         replay(&cli);
     }
     let thorough = cli.thorough();
+    let _ = POOL_SIZES.set(if thorough { vec![1, 2, 3, 8, 64] } else { vec![1, 3, 8] });
     let t0 = std::time::Instant::now();
     let mut stats = Stats::default();
     let mut fails: Vec<Fail> = vec![];
@@ -1407,6 +1530,16 @@ pub fn main() {
                     (format!("split trees, compact universe, every insertion order {}", name), s, fl)
                 }));
             }
+            // the public iterator on real pools (drive_unindexed + rayon's bridge, which the split-tree
+            // driver does not go through): every content x every partner mask for three kinds, a
+            // reduced partner set for the others
+            for (k, (name, f)) in storage_kinds().into_iter().enumerate() {
+                let bm: Vec<u32> = if thorough { all_b.clone() } else if k < 2 { some_b.clone() } else { some_b.iter().copied().step_by(3).collect() };
+                jobs.push(Box::new(move || {
+                    let (s, fl) = f(&SweepCfg { mode: Mode::C07Real, u: U.to_vec(), bmasks: bm.clone(), tree_cap: 0 });
+                    (format!("real pools {}", name), s, fl)
+                }));
+            }
             let ab = if thorough || true { all_b.clone() } else { some_b.clone() };
             let ab2 = all_b.clone();
             jobs.push(Box::new(move || {
@@ -1457,11 +1590,28 @@ pub fn main() {
         }
         p => machinery_error(&format!("mc-join does not serve property {p}")),
     }
-    let results = crate::util::par_map(&jobs, |j| match catch(|| j()) {
-        Ok(r) => r,
-        Err(msg) => ("panic".to_string(), Stats::default(), vec![Fail { form: "panic".into(), kind: "?".into(), xmask: vec![], bmask: vec![], detail: format!("unexpected panic inside a join: {}", msg), tree: None }]),
+    let results = crate::util::par_map(&jobs, |j| {
+        let run = || match catch(|| j()) {
+            Ok(r) => r,
+            Err(msg) => ("panic".to_string(), Stats::default(), vec![Fail { form: "panic".into(), kind: "?".into(), xmask: vec![], bmask: vec![], detail: format!("unexpected panic inside a join: {}", msg), tree: None }]),
+        };
+        let r = run();
+        if !r.2.is_empty() {
+            // determinism gate: a failing part must fail identically when run again
+            let again = run();
+            let k = |fl: &Vec<Fail>| fl.iter().map(|f| format!("{}|{}|{:?}|{:?}", f.kind, f.form, f.xmask, f.bmask)).collect::<Vec<_>>();
+            if k(&r.2) != k(&again.2) {
+                machinery_error(&format!("join failure not reproducible in part {}", r.0));
+            }
+        }
+        let ctx = SWEEP_CTX.with(|c| c.borrow().clone());
+        (r.0, r.1, r.2, ctx)
     });
-    for (name, s, fl) in results {
+    let mut findings: Vec<Finding> = vec![];
+    for (name, s, fl, ctx) in results {
+        for f in &fl {
+            findings.push(fail_to_finding(f, &cli.property, &ctx.0, ctx.1));
+        }
         parts.push(json!({"part": name, "joins": s.joins, "nontrivial": s.nontrivial, "split_trees": s.trees, "max_trees_per_mask": s.max_trees_per_mask, "entity_probes": s.probes, "failures": fl.len()}));
         if !fl.is_empty() || cli.flag("--verbose") {
             println!("# {} {}: joins={} trees={} failures={}", cli.property, name, s.joins, s.trees, fl.len());
@@ -1471,7 +1621,6 @@ pub fn main() {
     }
     println!("# {}: joins={} split_trees={} nontrivial_mask_pairs={} probes={} failures={} ({:.1}s)", cli.property, stats.joins, stats.trees, stats.nontrivial, stats.probes, fails.len(), t0.elapsed().as_secs_f64());
     let evals = stats.joins + stats.trees;
-    let findings: Vec<Finding> = fails.iter().map(|f| fail_to_finding(f, &cli.property)).collect();
     let ev = Evidence {
         coverage: json!({
             "states": stats.joins.max(1),
@@ -1505,25 +1654,30 @@ fn replay(cli: &Cli) -> ! {
     let v: serde_json::Value = serde_json::from_str(&txt).unwrap_or_else(|e| machinery_error(&format!("bad replay: {e}")));
     let mode = match v["mode"].as_str().unwrap_or("") {
         "C06" => Mode::C06,
-        "C07" => Mode::C07,
+        "C07" => if v["form"].as_str().unwrap_or("").contains("on a pool of") { Mode::C07Real } else { Mode::C07 },
         "C13" => Mode::C13,
         _ => machinery_error("replay: only storage-kind sweeps (C06/C07/C13) can be replayed individually; re-run the check for the others"),
     };
     let kind = v["kind"].as_str().unwrap_or("").to_string();
     let form = v["form"].as_str().unwrap_or("").to_string();
     let bmask: Vec<u32> = serde_json::from_value(v["bmask"].clone()).unwrap_or_default();
-    let f = storage_kinds().into_iter().find(|(n, _)| *n == kind).unwrap_or_else(|| machinery_error("replay: unknown kind")).1;
+    let u: Vec<u32> = serde_json::from_value(v["u"].clone()).ok().filter(|x: &Vec<u32>| !x.is_empty()).unwrap_or_else(|| U.to_vec());
+    let perm = v["perm"].as_bool().unwrap_or(false);
+    let f = if perm { storage_kinds_perm() } else { storage_kinds() }.into_iter().find(|(n, _)| *n == kind).unwrap_or_else(|| machinery_error("replay: only storage-kind sweeps can be replayed individually; re-run the check for the others")).1;
     let mut bits = 0u32;
-    for (bit, idx) in U.iter().enumerate() {
+    for (bit, idx) in u.iter().enumerate() {
         if bmask.contains(idx) {
             bits |= 1 << bit;
         }
     }
     // the sweep over all contents with this one partner mask reproduces the case
-    let run = || f(&SweepCfg { mode, u: U.to_vec(), bmasks: vec![bits], tree_cap: 100_000 }).1;
+    let run = || f(&SweepCfg { mode, u: u.clone(), bmasks: vec![bits], tree_cap: 100_000 }).1;
     let a = run();
     let b = run();
-    let pick = |fl: &[Fail]| fl.iter().find(|x| x.form == form).map(|x| x.detail.clone());
+    let xmask: Vec<u32> = serde_json::from_value(v["xmask"].clone()).unwrap_or_default();
+    let base = |f: &str| f.split(" [insertion order").next().unwrap_or(f).to_string();
+    let fb = base(&form);
+    let pick = |fl: &[Fail]| fl.iter().find(|x| base(&x.form) == fb && x.xmask == xmask).or_else(|| fl.iter().find(|x| base(&x.form) == fb)).map(|x| base(&x.form));
     if pick(&a) != pick(&b) {
         machinery_error("replay is not deterministic");
     }
